@@ -186,6 +186,10 @@ pub struct Ctx {
     pub inner_full: bool,
     /// current par_iter nesting depth (maintained by sim-rayon)
     pub depth: usize,
+    /// simulated worker tasks that may still be spawned in this execution; when it runs out,
+    /// parallel iterators run in order on the calling task (shuttle keeps every task's stack
+    /// mapped until the execution ends, and the OS limits the number of mappings)
+    pub spawn_budget: u64,
     /// auxiliary stream for decisions taken by the stubs themselves
     pub aux: Rng,
     pub rng: RngPlan,
@@ -207,6 +211,7 @@ pub struct Ctx {
     pub n_skipped_after_found: u64,
     pub max_workers: usize,
     pub n_nested: u64,
+    pub n_budget_inline: u64,
 }
 
 impl Ctx {
@@ -217,6 +222,7 @@ impl Ctx {
             take: TakePolicy::Front,
             inner_full: true,
             depth: 0,
+            spawn_budget: 2500,
             aux: Rng::new(0),
             rng: RngPlan::Stream { rng: Rng::new(0), adversarial: 0.0 },
             rng_record: Vec::new(),
@@ -234,6 +240,7 @@ impl Ctx {
             n_skipped_after_found: 0,
             max_workers: 0,
             n_nested: 0,
+            n_budget_inline: 0,
         }
     }
 
